@@ -340,7 +340,7 @@ def ob_choi_to_kraus(din, dout, kind, tol=1e-9):
 def obligations(tier):
     T = tier == "thorough"
     obs = []
-    dd = [1, 2, 3] + ([4] if T else [])
+    dd = [1, 2, 3] + ([4, 5] if T else [])
     for din, dout in itertools.product(dd, dd):
         for r in ([1, 2, 3] if T else [1, 2]):
             for form in ["flat", "nested_col", "pairs"]:
